@@ -190,4 +190,34 @@ pub fn run(ctx: &mut Ctx) {
     }
     ctx.rec.note("patterns", &patterns.to_string());
     ctx.rec.checkpoint();
+    // the REAL EXEC.CMD (everywhere else a stub stands in for it), pointed at a harmless target:
+    // it must consume the count and the names and touch nothing else (it sleeps 1 s per call)
+    case += 1;
+    if ctx.mine(case) && !ctx.is_fuzz() {
+        let target = ["/usr/bin/true", "/bin/true"].iter().find(|p| std::path::Path::new(p).exists());
+        match target {
+            None => ctx.rec.count("exec_cmd_real_skipped_no_harmless_target", 1),
+            Some(t) => {
+                let mut real = pushr::push::instructions::InstructionSet::new();
+                real.load();
+                let rcache = sorted_cache(&real);
+                for nargs in [0usize, 2] {
+                    let mut r = Rng::derive(ctx.seed, &[10, 77, nargs as u64]);
+                    let mut s = gen::snap(&mut r, &StateOpts { vals: Vals::Small, max_depth: 3, graphs: true, io: true, bindings: true, flags: false, random_cfg: false }, &names);
+                    s.n.insert(0, t.to_string());
+                    for a in 0..nargs {
+                        s.n.insert(0, format!("arg{}", a));
+                    }
+                    s.i.insert(0, nargs as i32);
+                    let mut st = build_state(&s);
+                    ctx.rec.case_marker(case, "EXEC.CMD (real)");
+                    let ev = judged_step("C10", "EXEC.CMD", &mut st, &mut real, &rcache, &mut ctx.rec, Judge { frame: true, reference: true }, &format!("real EXEC.CMD on {} with {} arguments", t, nargs));
+                    ctx.rec.count("steps", 1);
+                    ctx.rec.count("exec_cmd_real_runs", 1);
+                    ctx.rec.cover(&format!("EXEC.CMD|real|{}|{:?}", nargs, ev.fired));
+                }
+            }
+        }
+    }
+    ctx.rec.checkpoint();
 }
